@@ -493,7 +493,10 @@ pub fn check_docs(docs: &BTreeMap<(Vec<u8>, String), Expect>, add: &mut dyn FnMu
                 add("C10/attribute-altered/cache-control".into(), format!("object {}: cache directive {:?}, configured {:?}", k, gc, wc), case.clone());
             }
         }
-        // (b) flute's own receiver reads the same instance: metadata handed to the writer builder
+        // (b) flute's own receiver reads the same instance: metadata handed to the writer builder. Twice: the
+        // object's first packet carries EXT_FTI / EXT_CENC, or nothing (the FEC OTI and the encoding then come
+        // from the FDT alone)
+        for inband in [true, false] {
         let mon = Mon::new(false);
         let mut rx = flute::receiver::MultiReceiver::new(mon.builder(), Some(recv_config(true)), false);
         let now = at_ms(exp.publish_ms);
@@ -506,6 +509,7 @@ pub fn check_docs(docs: &BTreeMap<(Vec<u8>, String), Expect>, add: &mut dyn FnMu
             let oti = o.oti.clone().unwrap_or(s.oti.clone());
             // first packet of the object, in-band FTI per scheme (payload irrelevant for the metadata)
             let mut sp = rfc::Spec::minimal(oti.scheme.cp(), TSI, toi.parse().unwrap());
+            if inband {
             sp.exts.push(match oti.scheme {
                 Scheme::NoCode => rfc::fti_nocode(d.transfer_length, oti.e, oti.b as u32),
                 Scheme::Rs28 => rfc::fti_rs28(d.transfer_length, oti.e, oti.b as u8, (oti.b + oti.parity) as u8),
@@ -514,6 +518,7 @@ pub fn check_docs(docs: &BTreeMap<(Vec<u8>, String), Expect>, add: &mut dyn FnMu
                 Scheme::Raptor => rfc::fti_raptor_flute(d.transfer_length, oti.e, 1, 1, 1),
             });
             sp.exts.push(rfc::ext_cenc(o.cenc));
+            }
             sp.payload_id = rfc::pid(oti.scheme.cp(), 0, 0, 1, 8);
             sp.payload = vec![0; oti.e as usize];
             let _ = rx.push(&endpoint(), &rfc::encode(&sp), now);
@@ -557,11 +562,34 @@ pub fn check_docs(docs: &BTreeMap<(Vec<u8>, String), Expect>, add: &mut dyn FnMu
             if m.cache_control != exp_cc {
                 bad.push(format!("cache_control {:?} != {:?}", m.cache_control, exp_cc));
             }
+            if !inband {
+                let oti = o.oti.clone().unwrap_or(s.oti.clone());
+                let d = o.desc(None).unwrap();
+                match &m.oti {
+                    None => bad.push("oti missing".to_string()),
+                    Some(mo) => {
+                        if mo.fec_encoding_id as u8 != oti.scheme.cp() || mo.encoding_symbol_length != oti.e {
+                            bad.push(format!("oti scheme/E {:?}/{} != {}/{}", mo.fec_encoding_id, mo.encoding_symbol_length, oti.scheme.cp(), oti.e));
+                        } else if !matches!(oti.scheme, Scheme::RaptorQ | Scheme::Raptor) && mo.maximum_source_block_length != oti.b as u32 {
+                            bad.push(format!("oti B {} != {}", mo.maximum_source_block_length, oti.b));
+                        } else if matches!(oti.scheme, Scheme::Rs28 | Scheme::Rs28Us) && mo.max_number_of_parity_symbols != oti.parity as u32 {
+                            bad.push(format!("oti parity {} != {}", mo.max_number_of_parity_symbols, oti.parity));
+                        }
+                    }
+                }
+                if m.transfer_length != Some(d.transfer_length as usize) {
+                    bad.push(format!("transfer_length {:?} != {}", m.transfer_length, d.transfer_length));
+                }
+                if m.cenc.map(|c| c as u8).unwrap_or(0) != o.cenc {
+                    bad.push(format!("cenc {:?} != {}", m.cenc, o.cenc));
+                }
+            }
             if let Some(b) = bad.first() {
                 add(format!("C10/flute-receiver-reads-differently/{}", b.split(' ').next().unwrap()), format!("object {}: {}", k, bad.join("; ")), case.clone());
             }
         }
         drop(rx);
+        }
     }
     (checked, escaped)
 }
